@@ -361,14 +361,14 @@ def run_job(job):
 def main(chk):
     quick = chk.tier == "quick"
     jobs = []
-    n_random = 240 if quick else 2400
+    n_random = 960 if quick else 3600
     for i in range(n_random):
         jobs.append({"id": "rnd%d" % i, "kind": "random", "seed": job_seed(chk.seed, "C01", i),
                      "queries": 24 if quick else 30, "max_entries": 30 if quick else 60})
     for i in range(2 if quick else 12):
         jobs.append({"id": "large%d" % i, "kind": "large", "seed": job_seed(chk.seed, "C01", "L%d" % i), "files": 3000 if i % 2 == 0 else 700,
                      "dirs": 40 if i % 2 == 0 else 400})
-    for i in range(8 if quick else 120):
+    for i in range(32 if quick else 160):
         jobs.append({"id": "nonutf8-%d" % i, "kind": "nonutf8", "seed": job_seed(chk.seed, "C01", "N%d" % i)})
     shapes = enum_shapes(4 if quick else 6)
     per = 4
